@@ -86,12 +86,25 @@ def resolve(sym, accessor, trailing_slash, locs, bad, root_name="root"):
         sym.check("missing-file-is-RuntimeError", error is not None)
         if error is not None:
             sym.check("error-names-location", base in str(error))
+        try:
+            getattr(c, accessor)
+            again_error = None
+        except RuntimeError as e:
+            again_error = e
+        sym.check("missing-file-is-RuntimeError-on-every-access", again_error is not None)
         return
     is_bad = bad is not None and os.path.normpath(os.path.join(bad[0], "metadata", bad[1])) == chosen
     if is_bad:
         sym.check("undecodable-file-is-RuntimeError", error is not None)
         if error is not None:
             sym.check("error-names-file", os.path.join(base, "metadata", os.path.basename(chosen)) in str(error))
+        # a failed load leaves nothing behind: asking again fails again
+        try:
+            getattr(c, accessor)
+            again_error = None
+        except RuntimeError as e:
+            again_error = e
+        sym.check("undecodable-file-is-RuntimeError-on-every-access", again_error is not None)
         return
     sym.check("loaded", error is None)
     if error is not None:
